@@ -248,9 +248,12 @@ func (ex *Exec) unary(st *State, x *ast.UnaryExpr, k func(*State, []Val)) {
 }
 
 func (ex *Exec) addrOf(st *State, x *ast.UnaryExpr, k func(*State, Val)) {
+	ex.addrOfExpr(st, x.X, ex.typeOf(st.frame, x), k)
+}
+
+func (ex *Exec) addrOfExpr(st *State, xx ast.Expr, pty types.Type, k func(*State, Val)) {
 	fr := st.frame
-	inner := ast.Unparen(x.X)
-	pty := ex.typeOf(fr, x)
+	inner := ast.Unparen(xx)
 	switch in := inner.(type) {
 	case *ast.CompositeLit:
 		ex.compositeLit(st, in, func(st *State, v Val) {
